@@ -379,7 +379,17 @@ func init() {
 	natives["fmt.Fprintln"] = func(fr *frame, a []value) value {
 		return fr.i.writerAppend(fr, a[0].(iface), fr.i.sprint(fr, a[1].([]value), true))
 	}
-	natives["fmt.Sprint"] = func(fr *frame, a []value) value { return fr.i.sprint(fr, a[0].([]value), false) }
+	natives["fmt.Sprint"] = func(fr *frame, a []value) value {
+		// Sprint of ONE symbolic string is that string
+		if xs := a[0].([]value); len(xs) == 1 {
+			if it, ok := xs[0].(iface); ok {
+				if sv, ok := it.v.(sym); ok && sv.k == sStr {
+					return sv
+				}
+			}
+		}
+		return fr.i.sprint(fr, a[0].([]value), false)
+	}
 	natives["fmt.Sprintln"] = func(fr *frame, a []value) value { return fr.i.sprint(fr, a[0].([]value), true) }
 	natives["fmt.Println"] = func(fr *frame, a []value) value {
 		fr.i.event("write:stdout", fr.i.sprint(fr, a[0].([]value), true))
